@@ -1,4 +1,5 @@
-use crate::modules::load_modules_for_program;
+use crate::modules::load_modules_with_memo;
+use crate::modules::loader::ModuleInfo;
 use aelys_backend::Compiler;
 use aelys_common::Result;
 use aelys_common::error::{AelysError, CompileError, CompileErrorKind};
@@ -8,6 +9,7 @@ use aelys_opt::{OptimizationLevel, Optimizer};
 use aelys_runtime::{VM, Value};
 use aelys_sema::TypeInference;
 use aelys_syntax::{Source, Span};
+use std::collections::HashMap;
 
 const BUILTIN_NAMES: &[&str] = &["alloc", "free", "load", "store", "type"];
 
@@ -46,7 +48,24 @@ pub fn run_with_vm_and_opt(
         let cwd = std::env::current_dir().unwrap_or_else(|_| std::path::PathBuf::from("."));
         let repl_path = cwd.join("repl.aelys");
 
-        let imports = load_modules_for_program(&stmts, &repl_path, src.clone(), vm)?;
+        // modules loaded by earlier inputs of this session stay loaded: importing one again binds
+        // its exports but does not run its top level a second time
+        let memo: HashMap<String, ModuleInfo> = vm
+            .take_repl_session()
+            .and_then(|state| state.downcast::<HashMap<String, ModuleInfo>>().ok())
+            .map(|memo| *memo)
+            .unwrap_or_default();
+        let imports =
+            match load_modules_with_memo(&stmts, &repl_path, src.clone(), vm, memo.clone()) {
+                Ok((imports, loader)) => {
+                    vm.set_repl_session(Box::new(loader.loaded_modules));
+                    imports
+                }
+                Err(err) => {
+                    vm.set_repl_session(Box::new(memo));
+                    return Err(err);
+                }
+            };
 
         // the imported names are used to compile this input; they are recorded in the VM for
         // later inputs only once this input has been accepted (see below): an input that is
